@@ -76,14 +76,7 @@ def check(ctx):
             ctx.ob('R17.1', 'the handler has a failing exit from the loop', way_out, node=h,
                    message='no branch of the handler leaves the retry loop')
     # ---- R17.2
-    cand_iter = None
-    for cl in r.candidate_loops:
-        cand_iter = cl
-    attempt = None
-    if cand_iter is not None:
-        its = [t for t, l in g.succ[cand_iter.id] if g.n(t).kind == 'iteration']
-        if its:
-            attempt = g.reachable_from(its[0], blocked=[cand_iter.id])
+    attempt = r.attempt_region()
     ctx.require(attempt, 'R17.2: candidate loop not found')
     for e in r.muts:
         for cls, how, target, soft in e.data.get('raises', []):
@@ -176,5 +169,6 @@ def check(ctx):
     for cl in r.candidate_loops:
         it = cl.data.get('iter')
         ctx.ob('R17.4', 'the candidate loop iterates a finite list',
-               it is not None and all(isinstance(a, (ListObj, TupleT)) for a in flat(it)),
+               cl.data.get('kind') == 'unrolled' or
+               (it is not None and all(isinstance(a, (ListObj, TupleT)) for a in flat(it))),
                node=cl, message='candidates come from %s' % short(it))
